@@ -83,9 +83,25 @@ func sniVariants(rnd *rand.Rand, d *devSpec) (names, snis []string) {
 	add("foreign", id+".foreign.example")
 	add("evil-suffix", id+"."+domMain+".evil.example")
 	add("bare-domain", domMain)
-	add("glued", id+domMain)
 	add("unknown", unknownID+"."+domMain)
 	add("toolong", id+"toolong."+domMain)
+	// Near misses: names that merely END with the characters of a device
+	// domain, or lie next to it; all are syntactically valid host names and
+	// none is a child of a device domain.
+	for _, dom := range []string{domMain, domAlt} {
+		for _, b := range []string{"x", "Z", "0", "9", "-"} {
+			add("near-byte-"+b+"-"+dom, id+b+dom)
+		}
+		add("near-byte-upper-"+dom, strings.ToUpper(id+"0"+dom))
+		add("near-byte-mixed-"+dom, id+"q"+mixCase(rnd, dom))
+		add("near-glued-"+dom, id+dom)
+		add("near-glued-upper-"+dom, strings.ToUpper(id+dom))
+		add("near-label-prefixed-"+dom, id+".x"+dom)
+		add("near-label-prefixed-upper-"+dom, strings.ToUpper(id)+".X"+strings.ToUpper(dom))
+		_, parent, _ := strings.Cut(dom, ".")
+		add("near-parent-"+dom, id+"."+parent)
+		add("near-parent-upper-"+dom, id+"."+strings.ToUpper(parent))
+	}
 	if d.HumanLower != "" {
 		add("ext", extID(d, "otr")+"."+domMain)
 		add("ext-upper", strings.ToUpper(extID(d, "adr"))+"."+strings.ToUpper(domAlt))
@@ -279,8 +295,10 @@ func (g *gen) doh() {
 			}
 			pnames, paths := pathVariants(d, po)
 			creds := credVariants(d, o)
-			snames := []string{"none", "exact", "nested", "foreign"}
-			snis := []string{"", string(d.ID) + "." + domMain, "x." + string(d.ID) + "." + domMain, string(d.ID) + ".foreign.example"}
+			snames := []string{"none", "exact", "nested", "foreign", "near-byte", "near-byte-upper", "near-label-prefixed", "near-parent"}
+			_, parent, _ := strings.Cut(domMain, ".")
+			snis := []string{"", string(d.ID) + "." + domMain, "x." + string(d.ID) + "." + domMain, string(d.ID) + ".foreign.example",
+				string(d.ID) + "x" + domMain, strings.ToUpper(string(d.ID) + "-" + domAlt), string(d.ID) + ".x" + domMain, string(d.ID) + "." + parent}
 			k := 0
 			for pi := range pnames {
 				for _, c := range creds {
